@@ -68,6 +68,7 @@ func NewShared(prog *ssa.Program) *Shared {
 	sh.opts = Options{MaxIteChain: 256, AllocCap: 1 << 26, MaxPermute: 4}
 	registerModelIntrinsics(sh.intr)
 	registerStdlib(sh.intr)
+	registerGob(sh.intr)
 	if p := prog.ImportedPackage("errors"); p != nil {
 		sh.errorsNew = p.Func("New")
 	}
